@@ -249,6 +249,123 @@ Section SinkFlow.
       + intros _. right. exact H2.
       + intro Hf. left. apply H2. exact Hf.
   Qed.
+  (* ---- Writer.err ------------------------------------------------------- *)
+
+  Lemma run_close_inv2 : forall cl s rep,
+      inv s rep ->
+      (exists rep', inv (snd (run_close (Some f) cl s)) rep') /\
+      (fst (run_close (Some f) cl s) = None \/ fst (run_close (Some f) cl s) = Some e).
+  Proof.
+    induction cl as [|op cl IH]; intros s rep I; cbn [run_close].
+    - split; [exists rep; exact I|left; reflexivity].
+    - pose proof (step_inv op s rep I) as I1.
+      pose proof (step_err_id op s rep) as Eid.
+      destruct (step (Some f) op s) as [r s1]. cbn [fst snd] in *.
+      destruct (reports op).
+      + destruct r as [x|].
+        * cbn. split; [eexists; exact I1|]. right. rewrite (Eid x I eq_refl). reflexivity.
+        * eapply IH. exact I1.
+      + eapply IH. exact I1.
+  Qed.
+
+  (* what is known of the Writer between two calls *)
+  Definition winv (st : option N * wst) : Prop :=
+    (exists rep, inv (snd st) rep) /\ (fst st = None \/ fst st = Some e).
+
+  Lemma winv_w0 : winv (None, w0).
+  Proof. split; [exists false; apply inv_w0|left; reflexivity]. Qed.
+
+  Lemma run_call_winv c st :
+    winv st ->
+    winv (snd (run_call (Some f) c st)) /\
+    (fst (run_call (Some f) c st) = None \/ fst (run_call (Some f) c st) = Some e).
+  Proof.
+    intros [[rep I] W]. destruct st as [we s]. cbn [fst snd] in *. unfold run_call.
+    destruct (if c_checks c then we else None) as [x|] eqn:Ec.
+    - cbn. split; [split; [exists rep; exact I|exact W]|].
+      right. destruct (c_checks c); [|discriminate]. subst we. destruct W as [W|W]; congruence.
+    - destruct (run_close_inv2 (c_ops c) s rep I) as [[rep' I'] R].
+      destruct (run_close (Some f) (c_ops c) s) as [r s']. cbn [fst snd] in *.
+      split; [|exact R]. split; [exists rep'; exact I'|].
+      destruct we as [y|]; [exact W|].
+      destruct r as [y|]; [|left; reflexivity].
+      destruct (c_records c); [|left; reflexivity]. right. cbn [fst]. destruct R as [R|R]; [discriminate R|exact R].
+  Qed.
+
+  (* a recording call that returns an error leaves Writer.err set *)
+  Lemma run_call_records c st :
+    winv st -> c_records c = true ->
+    fst (run_call (Some f) c st) <> None ->
+    fst (snd (run_call (Some f) c st)) = Some e.
+  Proof.
+    intros [[rep I] W] Hr. destruct st as [we s]. cbn [fst snd] in *. unfold run_call.
+    destruct (if c_checks c then we else None) as [x|] eqn:Ec.
+    - cbn. intros _. destruct (c_checks c); [|discriminate]. subst we. destruct W as [W|W]; congruence.
+    - destruct (run_close_inv2 (c_ops c) s rep I) as [_ R].
+      destruct (run_close (Some f) (c_ops c) s) as [r s']. cbn [fst snd] in *.
+      intro Hne. destruct we as [y|]; [destruct W as [W|W]; congruence|].
+      destruct r as [y|]; [|congruence]. rewrite Hr. destruct R as [R|R]; congruence.
+  Qed.
+
+  (* once set, Writer.err stays, and every checking call returns it *)
+  Lemma sticky_calls : forall cs s,
+      (forall k c2, nth_error cs k = Some c2 -> c_checks c2 = true ->
+                    nth k (run_calls (Some f) cs (Some e, s)) None = Some e).
+  Proof.
+    induction cs as [|c cs IH]; intros s k c2 Hk Hc; [destruct k; discriminate|].
+    cbn [run_calls]. unfold run_call at 1.
+    destruct k as [|k]; cbn [nth_error] in Hk.
+    - inversion Hk; subst c2. rewrite Hc. reflexivity.
+    - destruct (c_checks c).
+      + cbn [nth]. eapply IH; eassumption.
+      + destruct (run_close (Some f) (c_ops c) s) as [r s']. cbn [nth]. eapply IH; eassumption.
+  Qed.
+
+  Lemma run_calls_app : forall a b st,
+      run_calls (Some f) (a ++ b) st = run_calls (Some f) a st ++ run_calls (Some f) b (state_after (Some f) a st).
+  Proof.
+    induction a as [|c a IH]; intros b st; cbn [run_calls state_after app]; [reflexivity|].
+    destruct (run_call (Some f) c st) as [r st']. cbn [snd]. rewrite IH. reflexivity.
+  Qed.
+
+  Lemma run_calls_length : forall cs st, length (run_calls (Some f) cs st) = length cs.
+  Proof.
+    induction cs as [|c cs IH]; intros st; cbn [run_calls]; [reflexivity|].
+    destruct (run_call (Some f) c st) as [r st']. cbn. rewrite IH. reflexivity.
+  Qed.
+
+  Lemma state_after_winv : forall cs st, winv st -> winv (state_after (Some f) cs st).
+  Proof.
+    induction cs as [|c cs IH]; intros st W; cbn [state_after]; [exact W|].
+    apply IH. apply run_call_winv. exact W.
+  Qed.
+
+  (* the strict form: the first error a recording call returns - it is the sink's
+     error - is returned by every later Put, OpenStream, WriteCompressed and Close *)
+  Lemma writer_sticky_lemma : forall pre c mid k c2,
+      c_records c = true ->
+      nth (length pre) (run_calls (Some f) (pre ++ c :: mid) (None, w0)) None <> None ->
+      nth_error mid k = Some c2 -> c_checks c2 = true ->
+      nth (length pre) (run_calls (Some f) (pre ++ c :: mid) (None, w0)) None = Some (fid f) /\
+      nth (length pre + 1 + k) (run_calls (Some f) (pre ++ c :: mid) (None, w0)) None = Some (fid f).
+  Proof.
+    intros pre c mid k c2 Hr Hne Hk Hc.
+    assert (E1 : forall X, nth (length pre) (run_calls (Some f) pre (None, w0) ++ X) None = nth 0 X None).
+    { intro X. rewrite app_nth2 by (rewrite run_calls_length; lia). rewrite run_calls_length. f_equal. lia. }
+    assert (E2 : forall X, nth (length pre + 1 + k) (run_calls (Some f) pre (None, w0) ++ X) None = nth (S k) X None).
+    { intro X. rewrite app_nth2 by (rewrite run_calls_length; lia). rewrite run_calls_length. f_equal. lia. }
+    rewrite run_calls_app in *. rewrite E1 in *. rewrite E2.
+    pose proof (state_after_winv pre (None, w0) winv_w0) as W.
+    set (st := state_after (Some f) pre (None, w0)) in *.
+    cbn [run_calls] in *.
+    pose proof (run_call_winv c st W) as [W1 R1].
+    pose proof (run_call_records c st W Hr) as Rec.
+    destruct (run_call (Some f) c st) as [r st1]. cbn [fst snd nth] in *.
+    split.
+    - destruct R1 as [R1|R1]; [congruence|exact R1].
+    - destruct st1 as [we s1]. cbn [fst] in Rec. rewrite (Rec Hne).
+      eapply sticky_calls; eassumption.
+  Qed.
 End SinkFlow.
 
 (* ---------------------------------------------------------------------- *)
